@@ -160,7 +160,7 @@ class UseWalrusIf(SimpleCodemod, NameResolutionMixin):
                         test=updated_node.test.with_changes(left=new_expression)
                     )
 
-        return original_node
+        return updated_node
 
     def leave_Assign(self, original_node: cst.Assign, updated_node: cst.Assign):
         del updated_node
